@@ -694,3 +694,23 @@ def rule4(ctx, prog, flows, all_sites, review, handled):
     ctx.counters["unreviewed_groups"] = len(unreviewed)
     ctx.counters["unreviewed_sample"] = unreviewed[:25]
     ctx.note("%d site groups are neither auto-discharged nor reviewed; they are untainted internal-invariant sites reported in counters.unreviewed_sample and do not alarm" % len(unreviewed))
+
+
+def run_once(ctx):
+    if ctx.tier != "thorough":
+        ctx.note("the clippy cross-reference of the inventory runs in the thorough tier")
+        return
+    import witness
+
+    ctx.rule("R-C20-4x", "inventory completeness: the MIR inventory finds at least as many unwrap/expect and indexing sites as clippy's restriction lints report on the source")
+    counts, rc = witness.clippy_counts()
+    ctx.counters["clippy"] = counts
+    ours_u = ctx.counters.get("unwrap_sites", 0)
+    ours_i = ctx.counters.get("index_sites", 0)
+    cu = counts.get("unwrap_used", 0) + counts.get("expect_used", 0)
+    ci = counts.get("indexing_slicing", 0)
+    if cu == 0 and ci == 0:
+        ctx.undecided("R-C20-4x", "clippy", "clippy produced no counts (exit %d); cross-reference not available" % rc)
+        return
+    ctx.require(ours_u >= cu, "R-C20-4x", "unwrap-count", "MIR inventory has %d unwrap/expect sites, clippy reports %d" % (ours_u, cu), "the MIR inventory has fewer unwrap/expect sites (%d) than clippy reports (%d): the extractor misses sites" % (ours_u, cu))
+    ctx.require(ours_i >= ci, "R-C20-4x", "index-count", "MIR inventory has %d index sites, clippy reports %d" % (ours_i, ci), "the MIR inventory has fewer indexing sites (%d) than clippy reports (%d): the extractor misses sites" % (ours_i, ci))
